@@ -274,6 +274,26 @@ def run_permutation(cx, max_len):
                     if sorted(map(repr, d)) != sorted(map(repr, items)):
                         cx.fail('PermutationVariable', 'decode-not-a-rearrangement', dict(case, decoded=repr(d)))
                         break
+            # the same list object, edited in place between two calls, must decode / correct like a fresh value
+            for perm in itertools.permutations(range(n)):
+                if n < 2:
+                    break
+                x = list(perm)
+                v.decode(x)
+                v.correct(x)
+                x[0], x[1] = x[1], x[0]
+                cx.n += 1
+                if v.decode(x) != v.decode(list(x)) or v.correct(x) != list(x):
+                    cx.fail('PermutationVariable', 'decode-or-correct-depends-on-earlier-calls',
+                            {'items': repr(items), 'value': x})
+                    break
+                arr = np.array(perm)
+                v.decode(arr)
+                arr[[0, 1]] = arr[[1, 0]]
+                if v.decode(arr) != v.decode(arr.tolist()):
+                    cx.fail('PermutationVariable', 'decode-or-correct-depends-on-earlier-calls',
+                            {'items': repr(items), 'value': arr.tolist()})
+                    break
     cx.samples.append({'type': 'PermutationVariable', 'items': [3, 1, 4, 2], 'values': 'all 6^4 vectors over ' + str(PERM_VALUES)})
 
 
